@@ -177,7 +177,7 @@ def run(chk):
                 chk.count(half)
                 why = None
                 if not (r.status == "ok" and r.got == r.ideal):
-                    if lrender.lookalike_known(chk, r):
+                    if lrender.lookalike_known(chk, r) or lrender.attrs_blank_known(chk, r):
                         continue
                     why = "rendered bytes differ from the denotation (status %s): a dynamic value is not escaped / not inserted exactly where the site is" % r.status
                 elif no_raw and i in ph_res:
